@@ -43,6 +43,7 @@ def _leaves():
         'I3': ((), lambda: IdentityOperator(SC(3))),
         'P': ((), lambda: IndexOperator(IDX, in_structure=SC(3))),
         'U': ((), lambda: IndexOperator(UIDX, in_structure=SC(3), unique_indices=True)),
+        'Pp': ((), lambda: IndexOperator(jnp.array([2, 0, 1]), in_structure=SC(3))),
         'Rs': ((), lambda: ReshapeOperator((3, 1), in_structure=SC(3))),
         'Mv': ((), lambda: MoveAxisOperator(0, 1, in_structure=SC(2, 3))),
         'Dt': (((3,),), lambda d: DiagonalOperator(d, in_structure={'a': SC(3), 'b': SC(2, 3)})),
@@ -287,9 +288,8 @@ def replay(e, model, kind, twin=False):
         return (not tol(a, b)), f'T.T.mv(x) = {np.asarray(a)} vs mv(x) = {np.asarray(b)}'
     if kind == 'complex linearity':
         y = _cmodel(model, 'y', xin)
-        from .harness import model_float
-        a = complex(model_float(model, 'ar', 0.0) or 0.0, model_float(model, 'ai', 0.0) or 0.0)
-        b = complex(model_float(model, 'br', 0.0) or 0.0, model_float(model, 'bi', 0.0) or 0.0)
+        sc = lambda n: float(model_tree(model, n, S()))  # noqa: E731
+        a, b = complex(sc('ar'), sc('ai')), complex(sc('br'), sc('bi'))
         l = _flat(op.mv(jax.tree.map(lambda u, v: a * u + b * v, x, y)))
         r = _flat(jax.tree.map(lambda u, v: a * u + b * v, op.mv(x), op.mv(y)))
         return (not tol(l, r)), f'op(a x + b y) = {np.asarray(l)} vs a op(x) + b op(y) = {np.asarray(r)}'
@@ -300,3 +300,130 @@ def replay(e, model, kind, twin=False):
         a, b = M @ _flat(x), _flat(op.mv(x))
         return (not tol(a, b)), f'{kind}() @ x = {np.asarray(a)} but op(x) = {np.asarray(b)} for {show(e)}'
     return False, f'unknown kind {kind}'
+
+
+# ---- C02 on complex data: the dunder methods against plain arithmetic of the operands' own mv -----------------------------------
+ARITH = ('add', 'sub', 'neg', 'kmul', 'mulk', 'matmul', 'kmul_comp')
+
+
+def arith_cases():
+    lf = lambda n: ('leaf', n)  # noqa: E731
+    sq = ['A', 'B', 'D', 'k', 'I3', 'Pp']
+    out = []
+    for a in sq:
+        out += [('neg', lf(a), None), ('kmul', lf(a), None), ('mulk', lf(a), None)]
+        for b in sq:
+            out += [('add', lf(a), lf(b)), ('sub', lf(a), lf(b)), ('matmul', lf(a), lf(b))]
+    out += [('matmul', lf('W'), lf('A')), ('matmul', lf('Bd'), lf('D')), ('kmul', lf('W'), None), ('kmul_comp', lf('W'), lf('A')),
+            ('kmul_comp', lf('A'), lf('D')), ('add', lf('W'), lf('W')), ('sub', lf('Bd'), lf('Bd'))]
+    return [c for c in out if 'Pp' not in repr(c) or c[0] in ('matmul', 'add', 'sub')]
+
+
+def check_arith(case, twin=False):
+    """(A op B)(x) equals the same arithmetic on A(x), B(x) for complex-valued operands and a complex symbolic scalar k."""
+    what, e1, e2 = case
+    es = [e for e in (e1, e2) if e is not None]
+    ps = [param_structs(e) for e in es]
+    try:
+        ops0 = [build(e, [np.ones(s.shape) for s in p], [np.ones(s.shape) for s in p]) for e, p in zip(es, ps)]
+        xin = ops0[-1].in_structure()
+    except ValueError as ex:
+        return skipped(f'ill-typed: {str(ex)[:60]}')
+    ctx = E.Ctx()
+    ctx.field = Field.get(4)
+    dec = Decider()
+    sc = S()
+    args = [(f'p{i}r', p, 'sym') for i, p in enumerate(ps)] + [(f'p{i}i', p, 'sym') for i, p in enumerate(ps)]
+    args += [('kr', sc, 'sym'), ('ki', sc, 'sym')] + _cargs('x', xin)
+    n = len(es)
+
+    def parts(vals):
+        pr, pi = vals[:n], vals[n:2 * n]
+        kr, ki, xr, xi = vals[2 * n:]
+        return [build(e, r, i) for e, r, i in zip(es, pr, pi)], lax.complex(kr, ki), _cx(xr, xi)
+
+    def real(*vals):
+        ops, k, x = parts(vals)
+        a = ops[0]
+        b = ops[1] if n > 1 else None
+        if what == 'add':
+            op = a + b
+        elif what == 'sub':
+            op = a - b
+        elif what == 'neg':
+            op = -a
+        elif what == 'kmul':
+            op = k * a
+        elif what == 'mulk':
+            op = a * k
+        elif what == 'matmul':
+            op = a @ b
+        else:
+            op = k * (a @ b)
+        return _flat(op.mv(x))
+
+    def oracle(*vals):
+        ops, k, x = parts(vals)
+        a = ops[0]
+        b = ops[1] if n > 1 else None
+        tm = jax.tree.map
+        if what == 'add':
+            r = tm(lambda u, v: u + v, a.mv(x), b.mv(x))
+        elif what == 'sub':
+            r = tm(lambda u, v: (v - u) if twin else (u - v), a.mv(x), b.mv(x))
+        elif what == 'neg':
+            r = tm(lambda u: -u, a.mv(x))
+        elif what in ('kmul', 'mulk'):
+            r = tm(lambda u: (jnp.conj(k) if twin else k) * u, a.mv(x))
+        elif what == 'matmul':
+            r = a.mv(b.mv(x))
+        else:
+            r = tm(lambda u: k * u, a.mv(b.mv(x)))
+        return _flat(r)
+    try:
+        got, _, _ = E.run(ctx, real, args)
+    except ValueError as ex:
+        return skipped(f'ill-typed: {str(ex)[:60]}')
+    want, _, _ = E.run(ctx, oracle, args)
+    res = [(f'{what} on complex operands', dec.decide(ctx, pairs(got, want, ctx)))]
+    common = dict(prims=sorted(ctx.prims), **dec.stats())
+    nob = common.pop('obligations')
+    r = res[0][1]
+    label = f'{what}({show(e1)}' + (f', {show(e2)})' if e2 is not None else ')')
+    if r.status == 'unsat':
+        return ok(obligations=nob, nontrivial=True, sample=dict(expression=label, field='Q(i)', verdict='unsat'), **common)
+    if r.status == 'unknown':
+        return inconclusive('solver unknown', obligations=nob, **common)
+    return violation(f'{label} on complex-valued operands differs from the arithmetic of the operands', model=r.model, signature=f'cplx-arith:{label}',
+                     kind='cplx-arith', twin=twin, obligations=nob, **common)
+
+
+def replay_arith(case, model, twin=False):
+    what, e1, e2 = case
+    es = [e for e in (e1, e2) if e is not None]
+    ops = []
+    for i, e in enumerate(es):
+        ps = param_structs(e)
+        pr, pi = model_tree(model, f'p{i}r', ps), model_tree(model, f'p{i}i', ps)
+        ops.append(build(e, [np.asarray(a) for a in pr], [np.asarray(a) for a in pi]))
+    k = complex(float(model_tree(model, 'kr', S())), float(model_tree(model, 'ki', S())))
+    x = _cmodel(model, 'x', ops[-1].in_structure())
+    a = ops[0]
+    b = ops[1] if len(ops) > 1 else None
+    tm = jax.tree.map
+    if what == 'add':
+        got, want = (a + b).mv(x), tm(lambda u, v: u + v, a.mv(x), b.mv(x))
+    elif what == 'sub':
+        got, want = (a - b).mv(x), tm(lambda u, v: (v - u) if twin else (u - v), a.mv(x), b.mv(x))
+    elif what == 'neg':
+        got, want = (-a).mv(x), tm(lambda u: -u, a.mv(x))
+    elif what == 'kmul':
+        got, want = (k * a).mv(x), tm(lambda u: (np.conj(k) if twin else k) * u, a.mv(x))
+    elif what == 'mulk':
+        got, want = (a * k).mv(x), tm(lambda u: (np.conj(k) if twin else k) * u, a.mv(x))
+    elif what == 'matmul':
+        got, want = (a @ b).mv(x), a.mv(b.mv(x))
+    else:
+        got, want = (k * (a @ b)).mv(x), tm(lambda u: k * u, a.mv(b.mv(x)))
+    g, w = np.asarray(_flat(got)), np.asarray(_flat(want))
+    return (not np.allclose(g, w, rtol=1e-8, atol=1e-9)), f'{what}: library gives {g}, arithmetic of the operands gives {w} (k = {k})'
